@@ -761,7 +761,7 @@ fn reqrep_scenario(seed: u64, log: &mut Vec<String>) -> Result<(), (String, &'st
         let seen: Vec<&Vec<u8>> = seen_by_replier.iter().filter(|(c, _)| *c == i).map(|(_, b)| b).collect();
         let sent: Vec<&Vec<u8>> = q.sent.iter().collect();
         if seen != sent {
-            let p = if reqs.iter().any(|q| q.gone) { "C02 C08" } else { "C02" };
+            let p = if reqs.iter().any(|q| q.gone) { "C02 C04 C08" } else { "C02" };
             return Err((format!("requestor {i} sent {} request(s) while a replier was bound; the replier saw {} tagged with its id (a request was lost, duplicated, reordered or attributed to another requestor{})", sent.len(), seen.len(), if p.len() > 3 { "; another requestor had left before" } else { "" }), p));
         }
         let st = q.sink.0.lock().unwrap();
